@@ -651,7 +651,8 @@ def run(tier: str) -> int:
             if sig not in unknown:
                 unknown[sig] = (c, out["decisions"], msg)
 
-    core.run_batch(_worker, seeds, wall_cap_s=budget["wall"], chunk=8, on_result=on_result, start="spawn")
+    core.run_batch(_worker, seeds, wall_cap_s=budget["wall"], chunk=8, on_result=on_result, start="spawn",
+                   stop_when=lambda out: any(not outcome.findings.is_known(sig) for sig, _ in out["problems"]))
 
     for sig in sorted(unknown):
         case, decisions, msg = unknown[sig]
